@@ -34,6 +34,79 @@ def enumerate_chain_ok(ctx, body, next_t):
     return core[:3] == ["enumerate", "lines", "content"], core
 
 
+def check_model(ctx, out, rule="C08.model"):
+    """line-pattern on a small model: three content lines, each blank / matching / not matching
+    (27 cases). Expected: a violation iff some line does not match, exactly one, and it designates
+    the first such line (the index handed to Block::content_line_position); the regex is applied to the
+    line's `trim()`; blank lines are neither tested nor do they end the scan."""
+    from rules import linemodel as LMo
+    from engine import casewalk as CW
+    import itertools
+    vb = ctx.validate_body(NAME, inline=True, sugar=True)
+    if vb is None:
+        return None
+    n = 0
+    undecided = False
+    for case in itertools.product(("blank", "match", "nomatch"), repeat=3):
+        lines = [CW.sym("L%d" % i) for i in range(3)]
+
+        def extra(w, bb, t, argv, env, rep, case=case):
+            nm = callee_name(t)
+            a0 = w.deref_val(env, argv[0]) if argv else CW.TOP
+            if re.search(r"<impl str>::trim$", nm) and a0[0] == "sym" and str(a0[1]).startswith("L"):
+                return CW.sym("trim", a0)
+            if re.search(r"<impl str>::(trim_start|trim_end|trim_ascii\w*|trim_matches|to_\w+)$", nm) and a0[0] == "sym":
+                return CW.sym(nm.split("::")[-1], a0)
+            if re.search(r"<impl str>::is_empty$", nm) and a0[0] == "sym":
+                base = a0[2] if a0[1] == "trim" else a0
+                if a0[1] == "trim" and base[0] == "sym" and str(base[1]).startswith("L"):
+                    return CW.const(1 if case[int(base[1][1:])] == "blank" else 0)
+                if str(a0[1]).startswith("L"):
+                    return None     # emptiness of the untrimmed line: unknown (a blank line may hold spaces)
+                return None
+            if re.search(r"regex::Regex::new$", nm):
+                return CW.adt("std::result::Result", "Ok", 0, [("0", CW.sym("RE"))])
+            if re.search(r"regex::Regex::is_match$", nm) and len(argv) > 1:
+                x = w.deref_val(env, argv[1])
+                if x[0] == "sym" and x[1] == "trim" and x[2][0] == "sym" and str(x[2][1]).startswith("L"):
+                    i = int(x[2][1][1:])
+                    if case[i] == "blank":
+                        rep.problems.append("a blank line is tested against the pattern")
+                    return CW.const(1 if case[i] == "match" else 0)
+                rep.problems.append("the pattern is applied to %s, not to the line's trim()" % LMo_show(x))
+                return None
+            return None
+        rep = LMo.walk_block(ctx, vb, NAME, lines, extra)
+        if rep is None:
+            undecided = True
+            break
+        fails = [i for i in range(3) if case[i] == "nomatch"]
+        want = {fails[0]} if fails else set()
+        desc = "lines (%s)" % ", ".join(case)
+        if rep.problems:
+            out.viol(rule, "%s|%s|%s" % (rule, "".join(c[0] for c in case), "problem"), ctx.where(vb), "%s: %s" % (desc, rep.problems[0]))
+        elif rep.reported != want:
+            if "?" in rep.reported or "sym" in rep.reported:
+                out.viol(rule, "%s|%s|line-unknown" % (rule, "".join(c[0] for c in case)), ctx.where(vb),
+                         "%s: a violation is built whose line does not come from Block::content_line_position(enumerate index)" % desc)
+            else:
+                out.viol(rule, "%s|%s|verdict" % (rule, "".join(c[0] for c in case)), ctx.where(vb),
+                         "%s: violations are built for content line index(es) %s; expected %s (a violation exactly when some non-blank line does not match, designating the first such line)"
+                         % (desc, sorted(rep.reported) or "none", sorted(want) or "none"))
+        else:
+            n += 1
+    if undecided:
+        return None
+    out.inst(rule, n, 27, ["3 content lines x {blank, match, no match}: violation iff some line fails, at the first failing line, pattern applied to trim()"], exhaustive=True)
+    return n == 27
+
+
+def LMo_show(v):
+    if v[0] == "sym":
+        return "%s(%s)" % (v[1], ", ".join(LMo_show(x) if isinstance(x, tuple) else str(x) for x in v[2:])) if len(v) > 2 else str(v[1])
+    return v[0]
+
+
 def run(ctx, out, tier):
     vb = ctx.validate_body(NAME, inline=True, sugar=True)
     if vb is None:
@@ -42,111 +115,123 @@ def run(ctx, out, tier):
     out.inst("C08.anchor", 1, 1, [vb.id])
     cfg = cfg_of(vb)
     E = ctx.expr(vb)
-    loops = linelevel.line_loops(ctx, vb)
-    if len(loops) != 1:
-        out.inst("C08.loop", len(loops), 1, note="exactly one loop over content.lines() expected")
-        return meta()
-    header, blocks, next_bb = loops[0]
-    region = util.iter_region(vb, next_bb) | set(blocks)
-    next_t = vb.blocks[next_bb]["term"]
-    ok_chain, core = enumerate_chain_ok(ctx, vb, next_t)
-    if not ok_chain:
-        out.viol("C08.loop", "C08.loop|chain", ctx.where(vb, next_t["span"]),
-                 "the line loop iterates %s; expected enumerate() directly over lines() of the block content, so that the index is the content line's index" % " <- ".join(core[:5]))
-    out.inst("C08.loop", 1, 1, ["for (i, line) in content.lines().enumerate()"])
-    pushes = [p for p in util.violation_push_sites(vb) if p[0] in region]
-
-    # ------------------------------------------------------------------ C08.arg / C08.blank / polarity
-    ms = [(bi, t) for bi, t in vb.calls() if callee_matches(t, r"regex::Regex::is_match$") and bi in region]
-    n_arg = 0
-    n_blank = 0
-    if len(ms) != 1:
-        out.viol("C08.arg", "C08.arg|is_match-count", ctx.where(vb), "expected exactly one `Regex::is_match` in the line loop, found %d" % len(ms))
+    # the verdict table on a small model (27 cases); if the model cannot follow the code, the structural
+    # rules below decide the same aspects instead
+    tr = out.trial()
+    try:
+        decided = check_model(ctx, tr)
+    except Exception as e:      # noqa: BLE001
+        ctx.view_fallbacks.append("C08.model: small-model analysis failed (%s: %s)" % (type(e).__name__, e))
+        decided = None
+    region = None
+    if decided is not None:
+        out.adopt(tr)
     else:
-        mbi, mt = ms[0]
-        ae = E.operand(mt["args"][1])
-        labs = ctx.prov.read_operand(vb, mt["args"][1])
-        if ae[0] == "call" and re.search(r"<impl str>::trim$", ae[1]):
-            n_arg += 1
+        loops = linelevel.line_loops(ctx, vb)
+        if len(loops) != 1:
+            out.inst("C08.loop", len(loops), 1, note="exactly one loop over content.lines() expected")
+            return meta()
+        header, blocks, next_bb = loops[0]
+        region = util.iter_region(vb, next_bb) | set(blocks)
+        next_t = vb.blocks[next_bb]["term"]
+        ok_chain, core = enumerate_chain_ok(ctx, vb, next_t)
+        if not ok_chain:
+            out.viol("C08.loop", "C08.loop|chain", ctx.where(vb, next_t["span"]),
+                     "the line loop iterates %s; expected enumerate() directly over lines() of the block content, so that the index is the content line's index" % " <- ".join(core[:5]))
+        out.inst("C08.loop", 1, 1, ["for (i, line) in content.lines().enumerate()"])
+        pushes = [p for p in util.violation_push_sites(vb) if p[0] in region]
+
+        # ------------------------------------------------------------------ C08.arg / C08.blank / polarity
+        ms = [(bi, t) for bi, t in vb.calls() if callee_matches(t, r"regex::Regex::is_match$") and bi in region]
+        n_arg = 0
+        n_blank = 0
+        if len(ms) != 1:
+            out.viol("C08.arg", "C08.arg|is_match-count", ctx.where(vb), "expected exactly one `Regex::is_match` in the line loop, found %d" % len(ms))
         else:
-            out.viol("C08.arg", "C08.arg|not-trimmed", ctx.where(vb, mt["span"]),
-                     "`is_match` is applied to `%s`; expected the line trimmed of surrounding whitespace (`line.trim()`)" % render(ae, 120))
-        if linelevel.key_calls_allowed(ctx, out, "C08.arg", vb, labs, ctx.where(vb, mt["span"]), "the tested text", ARG_ALLOWED):
-            n_arg += 1
-        # the trimmed text is the trim of the loop's own line
-        if P.has_call(labs, r"<impl str>::lines$"):
-            n_arg += 1
-        else:
-            out.viol("C08.arg", "C08.arg|not-loop-line", ctx.where(vb, mt["span"]), "the tested text does not derive from a line of the block content")
-        # blank guard
-        blank = None
-        for br, vals, e in util.guards(ctx, vb, mbi):
-            txt = render(e, 300)
-            if re.search(r"^str::is_empty\(str::trim\(", txt):
-                blank = (br, vals)
-        if blank is None:
-            out.viol("C08.blank", "C08.blank|unguarded", ctx.where(vb, mt["span"]), "`is_match` is not guarded by `!line.trim().is_empty()`: blank lines would be tested against the pattern")
-        else:
-            br, vals = blank
-            if vals != {0}:
-                out.viol("C08.blank", "C08.blank|polarity", ctx.where(vb, mt["span"]), "`is_match` is evaluated when the trimmed line IS empty")
+            mbi, mt = ms[0]
+            ae = E.operand(mt["args"][1])
+            labs = ctx.prov.read_operand(vb, mt["args"][1])
+            if ae[0] == "call" and re.search(r"<impl str>::trim$", ae[1]):
+                n_arg += 1
             else:
-                n_blank += 1
-            # the blank arm continues the loop and does nothing else
-            arms = util.switch_arms(vb, br)
-            blank_arm = arms["otherwise"] if 0 in arms else None
-            if blank_arm is not None:
-                okc, r = util.continue_only(cfg, blank_arm, region, header)
+                out.viol("C08.arg", "C08.arg|not-trimmed", ctx.where(vb, mt["span"]),
+                         "`is_match` is applied to `%s`; expected the line trimmed of surrounding whitespace (`line.trim()`)" % render(ae, 120))
+            if linelevel.key_calls_allowed(ctx, out, "C08.arg", vb, labs, ctx.where(vb, mt["span"]), "the tested text", ARG_ALLOWED):
+                n_arg += 1
+            # the trimmed text is the trim of the loop's own line
+            if P.has_call(labs, r"<impl str>::lines$"):
+                n_arg += 1
+            else:
+                out.viol("C08.arg", "C08.arg|not-loop-line", ctx.where(vb, mt["span"]), "the tested text does not derive from a line of the block content")
+            # blank guard
+            blank = None
+            for br, vals, e in util.guards(ctx, vb, mbi):
+                txt = render(e, 300)
+                if re.search(r"^str::is_empty\(str::trim\(", txt):
+                    blank = (br, vals)
+            if blank is None:
+                out.viol("C08.blank", "C08.blank|unguarded", ctx.where(vb, mt["span"]), "`is_match` is not guarded by `!line.trim().is_empty()`: blank lines would be tested against the pattern")
+            else:
+                br, vals = blank
+                if vals != {0}:
+                    out.viol("C08.blank", "C08.blank|polarity", ctx.where(vb, mt["span"]), "`is_match` is evaluated when the trimmed line IS empty")
+                else:
+                    n_blank += 1
+                # the blank arm continues the loop and does nothing else
+                arms = util.switch_arms(vb, br)
+                blank_arm = arms["otherwise"] if 0 in arms else None
+                if blank_arm is not None:
+                    okc, r = util.continue_only(cfg, blank_arm, region, header)
+                    if okc:
+                        n_blank += 1
+                    else:
+                        out.viol("C08.blank", "C08.blank|not-continue", ctx.where(vb),
+                                 "a blank line does not simply continue with the next line (it can leave the line loop): lines after a blank line would never be checked")
+                    calls = [callee_name(vb.blocks[x]["term"]) for x in r if vb.blocks[x]["term"] and vb.blocks[x]["term"]["k"] == "call"]
+                    if calls:
+                        out.viol("C08.blank", "C08.blank|side-effect", ctx.where(vb), "the blank-line arm does more than continue: %s" % calls[:3])
+            # polarity of the push
+            n_pol = 0
+            for bi, t in pushes:
+                ok = False
+                for br2, vals2, e2 in util.guards(ctx, vb, bi):
+                    if e2[0] == "call" and re.search(r"regex::Regex::is_match$", e2[1]):
+                        if vals2 == {0}:
+                            ok = True
+                        else:
+                            out.viol("C08.polarity", "C08.polarity|inverted", ctx.where(vb, t["span"]), "the line-pattern violation is pushed when the line MATCHES the pattern")
+                            ok = True
+                if ok:
+                    n_pol += 1
+                else:
+                    out.viol("C08.polarity", "C08.polarity|guard", ctx.where(vb, t["span"]), "the line-pattern violation push is not guarded by `!re.is_match(trimmed)`")
+            out.inst("C08.polarity", n_pol, 1, ["push iff !is_match(trimmed)"])
+            # a matching line continues with the next line
+            arms = None
+            match_arm = None
+            for bj, tt in vb.terms():
+                if tt["k"] != "switch" or bj not in region:
+                    continue
+                e3 = util.switch_operand_expr(ctx, vb, bj)
+                flipped = False
+                while e3[0] == "un" and e3[1] == "Not":
+                    e3 = e3[2]
+                    flipped = not flipped
+                if e3[0] == "call" and len(e3) > 3 and e3[3] == mbi:
+                    arms = util.switch_arms(vb, bj)
+                    match_arm = (arms["otherwise"] if 0 in arms else arms.get(1)) if not flipped else arms.get(0)
+            if arms is not None and match_arm is not None:
+                okc, r = util.continue_only(cfg, match_arm, region, header)
                 if okc:
                     n_blank += 1
                 else:
-                    out.viol("C08.blank", "C08.blank|not-continue", ctx.where(vb),
-                             "a blank line does not simply continue with the next line (it can leave the line loop): lines after a blank line would never be checked")
-                calls = [callee_name(vb.blocks[x]["term"]) for x in r if vb.blocks[x]["term"] and vb.blocks[x]["term"]["k"] == "call"]
-                if calls:
-                    out.viol("C08.blank", "C08.blank|side-effect", ctx.where(vb), "the blank-line arm does more than continue: %s" % calls[:3])
-        # polarity of the push
-        n_pol = 0
-        for bi, t in pushes:
-            ok = False
-            for br2, vals2, e2 in util.guards(ctx, vb, bi):
-                if e2[0] == "call" and re.search(r"regex::Regex::is_match$", e2[1]):
-                    if vals2 == {0}:
-                        ok = True
-                    else:
-                        out.viol("C08.polarity", "C08.polarity|inverted", ctx.where(vb, t["span"]), "the line-pattern violation is pushed when the line MATCHES the pattern")
-                        ok = True
-            if ok:
-                n_pol += 1
-            else:
-                out.viol("C08.polarity", "C08.polarity|guard", ctx.where(vb, t["span"]), "the line-pattern violation push is not guarded by `!re.is_match(trimmed)`")
-        out.inst("C08.polarity", n_pol, 1, ["push iff !is_match(trimmed)"])
-        # a matching line continues with the next line
-        arms = None
-        match_arm = None
-        for bj, tt in vb.terms():
-            if tt["k"] != "switch" or bj not in region:
-                continue
-            e3 = util.switch_operand_expr(ctx, vb, bj)
-            flipped = False
-            while e3[0] == "un" and e3[1] == "Not":
-                e3 = e3[2]
-                flipped = not flipped
-            if e3[0] == "call" and len(e3) > 3 and e3[3] == mbi:
-                arms = util.switch_arms(vb, bj)
-                match_arm = (arms["otherwise"] if 0 in arms else arms.get(1)) if not flipped else arms.get(0)
-        if arms is not None and match_arm is not None:
-            okc, r = util.continue_only(cfg, match_arm, region, header)
-            if okc:
-                n_blank += 1
-            else:
-                out.viol("C08.blank", "C08.match-continue", ctx.where(vb), "a matching line does not continue with the next line: later failing lines would be missed")
-    out.inst("C08.arg", n_arg, 3, ["is_match(line.trim())"])
-    out.inst("C08.blank", n_blank, 3, ["blank -> continue", "match -> continue"])
+                    out.viol("C08.blank", "C08.match-continue", ctx.where(vb), "a matching line does not continue with the next line: later failing lines would be missed")
+        out.inst("C08.arg", n_arg, 3, ["is_match(line.trim())"])
+        out.inst("C08.blank", n_blank, 3, ["blank -> continue", "match -> continue"])
 
-    # ------------------------------------------------------------------ C08.first
-    n_first = linelevel.first_wins(ctx, out, "C08.first", vb, region, header, pushes, "line-pattern")
-    out.inst("C08.first", n_first, 1, ["push -> leaves the line loop"])
+        # ------------------------------------------------------------------ C08.first
+        n_first = linelevel.first_wins(ctx, out, "C08.first", vb, region, header, pushes, "line-pattern")
+        out.inst("C08.first", n_first, 1, ["push -> leaves the line loop"])
 
     # ------------------------------------------------------------------ C08.pattern
     n_pat = 0
@@ -159,7 +244,7 @@ def run(ctx, out, tier):
         else:
             out.viol("C08.pattern", "C08.pattern|source", ctx.where(vb, t["span"]),
                      "the regex is compiled from [%s]; expected the `line-pattern` attribute text itself, unmodified" % util.origins_text(la, 5))
-        if bi in region:
+        if region is not None and bi in region:
             out.viol("C08.pattern", "C08.pattern|in-loop", ctx.where(vb, t["span"]), "the regex is compiled inside the line loop: an uncompilable pattern on an empty block would go unreported")
         else:
             n_pat += 1
@@ -182,7 +267,7 @@ def run(ctx, out, tier):
     else:
         out.inst("C08.detect", 0, 4)
     from rules.C10 import check_line_base
-    check_line_base(ctx, out, "line-pattern", "C08.line")
+    check_line_base(ctx, out, "line-pattern", "C08.line", index_by_model=decided is not None)
     shared.sh_flags(ctx, out, "line-pattern", "C08.flags")
     return meta()
 
